@@ -1,6 +1,6 @@
 """C06: cachex stays live - Load/Get/Set return and Futures resolve if loaders return."""
 from .runner import Spec
-from .c04 import Scenario, judge_pure, CACHE_ANCHORS, CACHE_TRUSTED
+from .c04 import Scenario, judge_pure, monitor_coverage, CACHE_ANCHORS, CACHE_TRUSTED
 
 
 class C06(Spec):
@@ -17,7 +17,9 @@ class C06(Spec):
             "every worker inside a loader while a sweep tick becomes due, then J+3 Loads over distinct keys (distinct shards) 1 ns "
             "apart fill the job queue and block in sendJob; 3..40 rounds; afterwards virtual time advances past every loader "
             "duration: every call must have returned and every handed-out Future must be resolved. Plus the shared random/share "
-            "scenarios, loads in flight across 5..25 sweep ticks, and 257..1000 entries in ONE shard (keys congruent modulo the shard "
+            "scenarios, contract violations (Load with nil loader on a missing / fresh / stale / loading key, Load/Get2/Set with a nil or "
+            "unsupported key) recovered by the caller and followed by ordinary traffic on the same key, shard and other shards, "
+            "loads in flight across 5..25 sweep ticks, and 257..1000 entries in ONE shard (keys congruent modulo the shard "
             "count) that are live / rotted at a sweep tick with more traffic after it. non-trivial = more Loads outstanding than the "
             "job queue holds at some instant, or more than 128 keys")
     trusted_base = CACHE_TRUSTED + ["hang detection: a controller goroutine sleeping on the fake clock reports calls that are still blocked "
@@ -50,10 +52,15 @@ class C06(Spec):
         for c in sc.calls.values():
             if c["call_t"] is None or c["ret_t"] is None:
                 return ("hang", "call c%d never returned" % c["cid"])
+            if c["ret"] == "panic" and c["kind"] != "panic":
+                return ("unexpected-panic", "c%d (%s key %s) panicked although it does not violate the contract" % (c["cid"], c["op"], c["key"]))
         for n, inv in sc.invs.items():
             if inv["end"] is None:
                 return ("loader-not-finished", "loader invocation #%d did not end inside the scenario (harness horizon too short?)" % n)
         return None
+
+    def extra(self, ctx):
+        monitor_coverage(ctx)
 
     def nontrivial(self, script, impl):
         if not script.startswith("cfg"):
